@@ -255,6 +255,13 @@ func (m *Machine) setupIntrinsics() {
 		c := m.captured[m.blobs[id].cap]
 		return Iface{T: c.T, V: Ptr{&m.captured[m.blobs[id].cap].V}}
 	})
+	reg("vDeepEqual", func(m *Machine, a []Val) Val {
+		t, ok := m.deepEq(a[0], a[1], 0)
+		if !ok {
+			return Bool{C: false}
+		}
+		return mkBool(t)
+	})
 	reg("vNumBlobs", func(m *Machine, a []Val) Val { return goInt(len(m.blobs)) })
 	reg("vMisaligned", func(m *Machine, a []Val) Val { return goInt(len(m.misaligned)) })
 	reg("vMisalignedClear", func(m *Machine, a []Val) Val { m.misaligned = nil; return nil })
@@ -335,4 +342,104 @@ func (m *Machine) staleIndependent(t *Term) bool {
 	r := m.sol.Check(&Term{"(not (= " + full + " " + ren(full) + "))", 0})
 	m.sol.Send("(pop)")
 	return r == "unsat"
+}
+
+// deepEq: structural equality of two values (through pointers, slices,
+// interfaces) as a term; ok=false when the shapes differ.
+func (m *Machine) deepEq(x, y Val, depth int) (*Term, bool) {
+	if depth > 40 {
+		panic(Unsupported{"deepEq depth"})
+	}
+	switch a := x.(type) {
+	case Int:
+		b, ok := y.(Int)
+		if !ok || a.Bits != b.Bits {
+			return nil, false
+		}
+		if a.BID != b.BID && (a.BID != 0 || b.BID != 0) {
+			// bytes of different opaque blobs: compared by the caller through their sources
+		}
+		return m.tEq(a.Term(), b.Term()), true
+	case Bool:
+		b, ok := y.(Bool)
+		if !ok {
+			return nil, false
+		}
+		return m.tEq(a.Term(), b.Term()), true
+	case Float:
+		b, ok := y.(Float)
+		if !ok || a.Bits != b.Bits {
+			return nil, false
+		}
+		return m.tEq(a.BV(), b.BV()), true
+	case Str:
+		b, ok := y.(Str)
+		if !ok {
+			return nil, false
+		}
+		return m.strEq(strBytes(a), strBytes(b)), true
+	case Ptr:
+		b, ok := y.(Ptr)
+		if !ok {
+			return nil, false
+		}
+		if a.P == nil || b.P == nil {
+			return boolConst(a.P == nil && b.P == nil), a.P == nil && b.P == nil
+		}
+		return m.deepEq(*a.P, *b.P, depth+1)
+	case Struct:
+		b, ok := y.(Struct)
+		if !ok || len(a) != len(b) {
+			return nil, false
+		}
+		t := termTrue
+		for i := range a {
+			e, ok := m.deepEq(a[i], b[i], depth+1)
+			if !ok {
+				return nil, false
+			}
+			t = m.tAnd(t, e)
+		}
+		return t, true
+	case Array:
+		b, ok := y.(Array)
+		if !ok || len(a) != len(b) {
+			return nil, false
+		}
+		t := termTrue
+		for i := range a {
+			e, ok := m.deepEq(a[i], b[i], depth+1)
+			if !ok {
+				return nil, false
+			}
+			t = m.tAnd(t, e)
+		}
+		return t, true
+	case Slice:
+		b, ok := y.(Slice)
+		if !ok || a.Blob != nil || b.Blob != nil || len(a.V) != len(b.V) {
+			return nil, false
+		}
+		t := termTrue
+		for i := range a.V {
+			e, ok := m.deepEq(a.V[i], b.V[i], depth+1)
+			if !ok {
+				return nil, false
+			}
+			t = m.tAnd(t, e)
+		}
+		return t, true
+	case Iface:
+		b, ok := y.(Iface)
+		if !ok {
+			return nil, false
+		}
+		if a.T == nil || b.T == nil {
+			return boolConst(a.T == nil && b.T == nil), a.T == nil && b.T == nil
+		}
+		return m.deepEq(a.V, b.V, depth+1)
+	case nil:
+		return boolConst(y == nil), y == nil
+	}
+	panic(Unsupported{fmt.Sprintf("deepEq on %T", x)})
 }
